@@ -124,7 +124,7 @@ def with_steps(scns, every=1, limit=None):
 
 def check(ctx, files):
     """Acceptance of the recorded executions by HtpParser.tla; rejections become MODEL-DRIFT lines (ctx.drift).  Returns coverage fields."""
-    acc, tot, drifts = accept(ctx, files)
+    acc, tot, drifts = accept(ctx, files, timeout=1500 if ctx.quick else 5000)
     for d in drifts:
         ctx.drift.append("execution %s is not a behaviour of spec/HtpParser.tla: the model cannot follow record %d %s (after %s)" % (d["run"], d["line_in_execution"], d["record"][:160], d["after"][:120]))
     ctx.log("model acceptance (HtpParser.tla TSpec): %d of %d execution(s) accepted, %d drift(s)" % (acc, tot, len(drifts)))
